@@ -28,7 +28,8 @@
 //!   Q<b>      `ImmediateEffect::new_isomorphic(body b)`   q<b>  `ImmediateEffect::new_mut(body b)`
 //!   J<b>      `ImmediateEffect::new_scoped(body b)` (no handle: it lives until the current owner's next clean-up)
 //!   z<s>.<v>  `if sigs[s].get_untracked() < v { sigs[s].set(v) }` — inside an immediate effect that reads
-//!             s this makes the effect recurse; ignored inside a memo run and while a `new_mut` function runs
+//!             s this makes the effect recurse; ignored inside a memo run, while a `new_mut` function runs,
+//!             in the function of an `AsyncDerived` and while one is being constructed
 //!   k<b>      `spawn_local_scoped(async { body b; yield; body b })`   K<b>  `spawn_local_scoped_with_cancellation(..)`
 //!   f<b>      `Executor::spawn_local(ScopedFuture::new(..))`
 //!             (a task is entered in the effect table: R<e>/S<e>=sum per segment, e<k>=l until its future
@@ -1067,12 +1068,15 @@ fn exec_bop(op: &BOp, sum: &mut i64) {
                 eid
             });
             let sentinel = Sentinel(eid);
+            // no `z` writes while the value is being constructed
+            w(|w| w.mut_depth += 1);
             let a = AsyncDerived::new(move || {
                 let _keep = &sentinel;
                 let v = run_effect_body(eid, b);
                 async move { v }
             });
             w(|w| {
+                w.mut_depth -= 1;
                 w.effs[eid] = AnyEff::Async(a);
                 w.sh_new_handle(H::E(eid));
             });
